@@ -17,17 +17,17 @@ import (
 )
 
 type c04Case struct {
-	Doc  vDoc `json:"doc"`
-	Alt  vDoc `json:"alt"`  // same AST, second independent layout draw
-	CLI  bool `json:"cli"`  // also go through csv database / csv log / print
+	Doc   vDoc `json:"doc"`
+	Alt   vDoc `json:"alt"` // same AST, second independent layout draw
+	CLI   bool `json:"cli"` // also go through csv database / csv log / print
 	IsLog bool `json:"islog"`
 }
 
 type vGotRec struct {
-	Head    string
-	Names   []string
-	Values  []float64
-	Notes   []vPNote
+	Head   string
+	Names  []string
+	Values []float64
+	Notes  []vPNote
 }
 
 // vParseAll collects the callback sequence of the real callback parser.
